@@ -10,7 +10,7 @@ From Coq Require Import ZArith List Bool QArith Qcanon Lia.
 From Coq Require Import Permutation.
 From SG Require Import Base.QcUtil Model.CombiScheme Model.StdCombi Model.ExtendSplit Model.ESInterp
      Proofs.StdCombiSum Proofs.StdNodal Proofs.ESGeom Proofs.ESInv Proofs.ESTree Proofs.ESCombi Proofs.ESV0 Proofs.ESNodal Proofs.ESDict Proofs.ESShift Proofs.ESRestart Proofs.ESAssignFn.
-From SG Require Import Model.ESV3 Proofs.ESV3P Proofs.ESV12Low Model.ESAuto Proofs.ESAutoP.
+From SG Require Import Model.ESV3 Proofs.ESV3P Proofs.ESV12Low Model.ESAuto Proofs.ESAutoP Proofs.ESV2Full.
 Import ListNotations.
 Open Scope Z_scope.
 
@@ -478,4 +478,52 @@ Example C07_nonvacuous_decisions :
   map snd log = [[0%nat]] /\ length es = 5%nat /\
   map (fun e => map (fun t => match t with Some x => Some (this x) | None => None end) (fst (snd e))) es =
     [[None; Some (1 # 2)%Q]; [Some 1%Q; None]; [None; None]; [None; Some (1 # 4)%Q]; [None; Some (1 # 4)%Q]].
+Proof. vm_compute. repeat split; reflexivity. Qed.
+
+(* ==================================================================================================================
+   PHASE 4
+   ================================================================================================================== *)
+
+(* ---- coarsening version 2 (lmin-aware arithmetic, base = lmin): the FULL STATEMENT, GENERAL: every dimension >= 1, every
+   lmin <= lmax, every coarsening value 0 <= c <= lmax - lmin.  Replaces the version-2 half of
+   C07_local_combi_v12_valid_all_lmin_bounded.  Proof (Proofs/ESV2Full.v): the loop lowers the cap m -> m-1 while
+   2 m >= thr and the budget covers the entries at the cap; for a level vector k with maximum K: below the threshold or with
+   more than c entries at K domination is unchanged; with a unique maximum above the threshold  T l >= k <-> l >= k + c e_i0
+   (two levels above K-1 would make the cap K-1 affordable: cost <= n - 2 (K-1-lmin) <= c); with 2..c entries at K nothing
+   dominates k.  In every case the dominating sum is one of the closed-form scheme (std_IE). *)
+Theorem C07_local_combi_v2_valid : forall n lmin lmax c, lmin <= lmax -> 0 <= c <= lmax - lmin ->
+  valid_local_combi (S n) (local_combi (mkCP (S n) 2 lmin lmax lmin) c) = true.
+Proof. exact local_combi_v2_valid. Qed.
+Print Assumptions C07_local_combi_v2_valid.
+
+(* the case analysis itself: for every level vector k there is k2 with  coarsened(l) >= k <-> l >= k2  on the whole scheme,
+   or no coarsened component grid dominates k *)
+Theorem C07_v2_domination_is_scheme_domination : forall n lmin lmax c k, lmin <= lmax -> 0 <= c <= lmax - lmin ->
+  length k = S n -> Forall (fun x => lmin <= x) k ->
+  (exists k2, length k2 = S n /\ Forall (fun x => lmin <= x) k2 /\
+     forall l cf td, In (l, cf) (combi_scheme_standard (S n) lmin lmax) ->
+       lv_geb (L2 (Z.of_nat (S n)) lmin lmax c td (Z.to_nat c) c l) k = lv_geb l k2) \/
+  (forall l cf td, In (l, cf) (combi_scheme_standard (S n) lmin lmax) ->
+       lv_geb (L2 (Z.of_nat (S n)) lmin lmax c td (Z.to_nat c) c l) k = false).
+Proof. intros n lmin lmax c k Hle Hc. exact (key n lmin lmax c Hc k). Qed.
+Print Assumptions C07_v2_domination_is_scheme_domination.
+
+(* version 2 over histories (restarts included): every area of every reachable state carries a valid local combination *)
+Theorem C07_every_area_valid_local_combi_v2 :
+  forall n nrbe lmin lmax auto single a b bens0 hist x, wfbox a b -> length a = S n -> lmin <= lmax ->
+  let st := run_events2 (start_state (S n) 2 nrbe lmin lmax lmin auto single a b bens0) hist in
+  In x (st_objs st) -> valid_local_combi (S n) (area_grids (st_cp st) x) = true.
+Proof.
+  intros n nrbe lmin lmax auto single a b bens0 hist x Hbox Hdim Hlev st Hx. unfold st in *. clear st.
+  rewrite (area_grids_history2 (S n) 2 nrbe lmin lmax lmin auto single a b bens0 Hbox Hdim Hlev hist x Hx).
+  pose proof (coarsening_nonneg2 (S n) 2 nrbe lmin lmax lmin auto single a b bens0 Hbox Hdim Hlev hist x Hx) as C.
+  apply local_combi_v2_valid; lia.
+Qed.
+Print Assumptions C07_every_area_valid_local_combi_v2.
+
+(* non-vacuity far outside the enumerated box: d = 6, lmin = 2, lmax = 9 (span 7), coarsening 4 *)
+Example C07_nonvacuous_v2_general :
+  Nat.ltb 1000 (length (local_combi (mkCP 6 2 2 9 2) 4)) = true /\
+  dominating_sum (local_combi (mkCP 6 2 2 9 2) 4) [2; 2; 0; 0; 0; 0] = 1 /\
+  existsb (fun g => lv_geb (fst g) [2; 2; 0; 0; 0; 0]) (local_combi (mkCP 6 2 2 9 2) 4) = true.
 Proof. vm_compute. repeat split; reflexivity. Qed.
